@@ -508,7 +508,7 @@ func strUnescCase(c *Ctx, k strCase) {
 			b := json.AppendUnescape([]byte("prefix:"), fresh(), 0)
 			cmp("json.AppendUnescape", strings.TrimPrefix(string(b), "prefix:"), nil)
 		}
-		if v.OK && !strHasBad(v.S) { // what these two make of invalid UTF-8 is not stated anywhere
+		if v.OK { // (invalid UTF-8 included: the decoded value of a token is what encoding/json decodes)
 			cmp("RawValue.Unquote", string(json.RawValue(fresh()).Unquote()), nil)
 			b := json.RawValue(fresh()).AppendUnquote(make([]byte, 0, 16))
 			cmp("RawValue.AppendUnquote", string(b), nil)
